@@ -6,6 +6,7 @@
 -/
 import JrpcVerif.Driver.Codec
 import JrpcVerif.Model.MacroApi
+import JrpcVerif.Model.MacroNames
 namespace Jrpc.Driver
 open Jrpc Jrpc.Macro
 
@@ -23,8 +24,37 @@ def parseDesc (kind desc : String) : Option MethodDesc :=
 def argsRepr (as : List (Option Text)) : String :=
   if as.isEmpty then "-" else String.intercalate "," (as.map optHex)
 
+def hexList (s : String) : Option (List Text) :=
+  if s == "-" then some [] else (s.splitOn ",").mapM unhexText
+
+def targetName : Target → String
+  | .method => "method"
+  | .subscribe => "subscribe"
+  | .unsubscribe => "unsubscribe"
+
+/-- `mres <key> <idx> <ns|none> <sep|none> <isSub> <name> <aliases|-> <unsub|-> <unsubAliases|->`:
+the idx-th wire name of the item (registration order) and what it resolves to -/
+def mresVerb (idx ns sep isSub name aliases unsub unsubAliases : String) : String :=
+  match idx.toNat?, unOptHex ns, unOptHex sep, unhexText name, hexList aliases, hexList unsubAliases with
+  | some i, some nsT, some sepT, some nm, some al, some ual =>
+    let nsp : Option (Text × Text) := match nsT, sepT with
+      | some a, some b => some (a, b)
+      | _, _ => none
+    let un : Text := if unsub == "-" then [] else (unhexText unsub).getD []
+    let d : ItemDesc := ⟨isSub == "1", nm, al, un, ual⟩
+    let names := wireNames nsp d
+    (match names[i % names.length]? with
+     | some n =>
+       (match resolve nsp d n with
+        | some t => s!"n={hexText n} t={targetName t}"
+        | none => s!"n={hexText n} t=none")
+     | none => "bad-op")
+  | _, _, _, _, _, _ => "bad-op"
+
 def macroVerb (ws : List String) : Option String :=
   match ws with
+  | ["mres", _, idx, ns, sep, isSub, name, aliases, unsub, unsubAliases] =>
+    some (mresVerb idx ns sep isSub name aliases unsub unsubAliases)
   | "mcall" :: _ :: kind :: desc :: args =>
     some (match parseDesc kind desc, args.mapM unOptHex with
       | some d, some as =>
